@@ -430,7 +430,25 @@ def partial_request_rule(prog, chk):
                 if e.dst == heads[0]:
                     continue        # next iteration = next request
                 work.append((e.dst, path + [e.dst]))
-        chk.ob("C14.partial", "dispatch:remove@%d" % fn.elem_line(rb, ri), bad is None,
+        # name the site after the condition it is controlled by (not after its line)
+        kind = "other"
+        dom = fn.dom()
+        for c in sorted(dom[rb], key=lambda x: -len(dom[x])):
+            cond = fn.branch_cond(c)
+            t = text(fn, cond) if cond is not None else ""
+            if "->state" in t:
+                kind = "state-changed"
+                break
+            if "SND_TIMEOUT" in t or "difftime" in t:
+                kind = "send-timeout"
+                break
+            if "->sentCount" in t and "->len" in t:
+                kind = "completely-sent"
+                break
+        kind = kind + ("-after-close" if rb in closes or any(x in closes for x in dom[rb] if x != rb and False) else "")
+        k0 = kind
+        nth = sum(1 for (b2, i2, n2) in removes[:removes.index((rb, ri, rn))] if True)
+        chk.ob("C14.partial", "dispatch:remove[%s#%d]" % (k0, nth), bad is None,
                "the request is removed from the send queue only after sentCount == len, sentCount == 0, or closeSocket()" if bad is None else
                "a path from taking the head request to its removal from the send queue passes neither 'all sent', 'nothing sent' nor closeSocket(): a "
                "fragment already written stays on the open connection and the next request follows it", loc=fn.loc(fn.elem_line(rb, ri)), fn=fn,
